@@ -49,7 +49,26 @@ def _wrapper(name, fn_qual, uses, dims=("pos", "freq", "dir"), kwargs=None, twod
             dk = da.chunk(ch)
             got = c.call(dk, **(kwargs or {})).compute()
             ref = c.call(da, **(kwargs or {})).compute()
-            c.ensure_true("chunked_equals_in_memory", bool(np.allclose(got.values, ref.values, equal_nan=True)), f"chunks {ch}")
+            g, w = np.asarray(got.values, dtype=float).ravel(), np.asarray(ref.values, dtype=float).ravel()
+            ok = True
+            if name in ("dpm", "peak_wave_direction"):
+                # directions: compared on the circle, and not at all where the resultant vanishes (the
+                # direction of a zero vector is decided by summation order, which chunking changes)
+                from contracts.peak import s_dpm
+                from engine.pyse.api import NUM
+
+                V = View(da)
+                for k in range(len(g)):
+                    if name == "dpm" and s_dpm(NUM, V, {"pos": k}) == float("inf"):
+                        continue
+                    if (g[k] != g[k]) != (w[k] != w[k]):
+                        ok = False
+                    elif g[k] == g[k]:
+                        d = abs(g[k] - w[k]) % 360
+                        ok = ok and min(d, 360 - d) < 1e-3
+            else:
+                ok = bool(np.allclose(g, w, equal_nan=True))
+            c.ensure_true("chunked_equals_in_memory", ok, f"chunks {ch}")
 
     verify.__name__ = "v_chunks_" + name
     return verify
